@@ -12,6 +12,10 @@ import (
 
 func init() {
 	registerRule("origin-compare", 1, "where two locations are compared component by component to decide 'same server' or 'same document', scheme and host are both compared, the host with its port (URL.Host, not Hostname())", ruleOriginCompare)
+	registerRule("escaped-into-decoded", 1, "the decoded components of a url.URL (Path, Fragment) are never assigned an escaped text (EscapedPath, EscapedFragment, PathEscape, QueryEscape, String): printing the URL would escape it a second time", ruleEscapedIntoDecoded)
+	registerRule("scheme-on-parsed", 1, "a function that parses a location never decides on the scheme by looking at the raw text it was given: url.Parse lower-cases the scheme, the text does not (FILE:/x and file:/x are the same location)", ruleSchemeOnParsed)
+	registerRule("factory-keeps-options", 1, "the loader factory keeps the options value it was handed (its callers read the base path back from that very value); it replaces it only when it is nil", ruleFactoryKeepsOptions)
+	registerRule("encode-nil-empty-alike", 20, "a JSON encoder never distinguishes a nil slice of its receiver from an empty one: gob transport (and omitempty) do not preserve that difference, so the same document would encode differently before and after", ruleEncodeNilEmptyAlike)
 	registerRule("ok-before-compare", 1, "in a sort comparator a value obtained together with an ok flag is compared only where that flag is known to be true (the value of an absent key is a sentinel, not a rank)", ruleOkBeforeCompare)
 }
 
@@ -137,6 +141,23 @@ func ruleOkBeforeCompare(c *Ctx) {
 		}
 		c.saw(fn)
 		good, why := true, ""
+		// ranks are compared, never subtracted: a difference of two int ranks overflows for ranks far apart and
+		// the sign of the wrapped difference orders them the wrong way round (no strict weak order any more)
+		ast.Inspect(fd.Body, func(n ast.Node) bool {
+			be, isB := n.(*ast.BinaryExpr)
+			if !isB || be.Op != token.SUB && be.Op != token.ADD && be.Op != token.MUL {
+				return true
+			}
+			for _, side := range []ast.Expr{be.X, be.Y} {
+				if id, isId := unparen(side).(*ast.Ident); isId {
+					if _, has := okOf[c.objOf(id)]; has {
+						good = false
+						why = c.pos(be.Pos()) + ": the comparator computes " + exprString(be) + " on two ranks instead of comparing them: the result wraps around for ranks more than MaxInt apart and the order is no longer transitive"
+					}
+				}
+			}
+			return true
+		})
 		ast.Inspect(fd.Body, func(n ast.Node) bool {
 			be, isB := n.(*ast.BinaryExpr)
 			if !isB {
@@ -247,4 +268,276 @@ func (c *Ctx) entailsFlag(conds []condLit, flag types.Object) bool {
 		}
 	}
 	return true
+}
+
+// ---- escaped-into-decoded ----
+
+func ruleEscapedIntoDecoded(c *Ctx) {
+	const rule = "escaped-into-decoded"
+	isEscaper := func(e ast.Expr) string {
+		found := ""
+		ast.Inspect(e, func(n ast.Node) bool {
+			call, ok := n.(*ast.CallExpr)
+			if !ok {
+				return true
+			}
+			if _, name, pkg, isM := c.calleeMethod(call); isM && pkg == "net/url" && (name == "EscapedPath" || name == "EscapedFragment") {
+				found = name
+			}
+			if c.isPkgFunc(call, "net/url", "PathEscape") || c.isPkgFunc(call, "net/url", "QueryEscape") {
+				found = "url escape function"
+			}
+			return true
+		})
+		return found
+	}
+	n := 0
+	for _, fd := range c.allFuncDecls() {
+		if fd.Body == nil {
+			continue
+		}
+		fn := c.funcName(fd)
+		defs := c.localDefs(fd)
+		ast.Inspect(fd.Body, func(nd ast.Node) bool {
+			check := func(field string, val ast.Expr, pos token.Pos, holder string) {
+				n++
+				c.saw(fn)
+				why := isEscaper(val)
+				if why == "" {
+					if id, ok := unparen(val).(*ast.Ident); ok {
+						for _, d := range defs[c.objOf(id)] {
+							if d != nil && isEscaper(d) != "" {
+								why = isEscaper(d)
+							}
+						}
+					}
+				}
+				c.ob(rule, fn+":"+holder+"."+field, pos, why == "",
+					"the decoded component "+field+" of a URL is given the result of "+why+": when the URL is printed the text is escaped again (%20 becomes %2520) and the reference no longer designates its target")
+			}
+			switch x := nd.(type) {
+			case *ast.AssignStmt:
+				if len(x.Lhs) != len(x.Rhs) {
+					return true
+				}
+				for i, l := range x.Lhs {
+					se, ok := unparen(l).(*ast.SelectorExpr)
+					if !ok || !c.isURLType(c.typeOf(se.X)) || se.Sel.Name != "Fragment" && se.Sel.Name != "Path" {
+						continue
+					}
+					check(se.Sel.Name, x.Rhs[i], x.Pos(), exprString(se.X))
+				}
+			case *ast.CompositeLit:
+				if !c.isURLType(c.typeOf(x)) {
+					return true
+				}
+				for _, el := range x.Elts {
+					if kv, ok := el.(*ast.KeyValueExpr); ok {
+						if id, ok := kv.Key.(*ast.Ident); ok && (id.Name == "Fragment" || id.Name == "Path") {
+							check(id.Name, kv.Value, kv.Pos(), "url.URL{}")
+						}
+					}
+				}
+			}
+			return true
+		})
+	}
+}
+
+// ---- scheme-on-parsed ----
+
+func ruleSchemeOnParsed(c *Ctx) {
+	const rule = "scheme-on-parsed"
+	for _, fd := range c.allFuncDecls() {
+		if fd.Body == nil {
+			continue
+		}
+		fn := c.funcName(fd)
+		// parameters handed directly to the URL parser
+		parsed := map[types.Object]bool{}
+		ast.Inspect(fd.Body, func(n ast.Node) bool {
+			call, ok := n.(*ast.CallExpr)
+			if !ok || len(call.Args) != 1 {
+				return true
+			}
+			isParse := c.isPkgFunc(call, "net/url", "Parse")
+			if g, _ := c.callee(call).(*types.Func); g != nil && g.Pkg() == c.Types && g.Name() == "parseURL" {
+				isParse = true
+			}
+			if !isParse {
+				return true
+			}
+			if id, ok := unparen(call.Args[0]).(*ast.Ident); ok && c.paramIndex(fd, c.objOf(id)) >= 0 {
+				parsed[c.objOf(id)] = true
+			}
+			return true
+		})
+		if len(parsed) == 0 {
+			continue
+		}
+		c.saw(fn)
+		good, why := true, ""
+		mentionsScheme := func(e ast.Expr) bool {
+			found := false
+			ast.Inspect(e, func(n ast.Node) bool {
+				if ex, ok := n.(ast.Expr); ok {
+					if s, isC := c.constString(ex); isC {
+						ls := strings.ToLower(s)
+						if strings.HasPrefix(ls, "file") || strings.HasPrefix(ls, "http") {
+							found = true
+						}
+					}
+				}
+				return true
+			})
+			return found
+		}
+		isParsedParam := func(e ast.Expr) bool {
+			id, ok := unparen(e).(*ast.Ident)
+			return ok && parsed[c.objOf(id)]
+		}
+		ast.Inspect(fd.Body, func(n ast.Node) bool {
+			switch x := n.(type) {
+			case *ast.CallExpr:
+				if (c.isPkgFunc(x, "strings", "HasPrefix") || c.isPkgFunc(x, "strings", "Contains") || c.isPkgFunc(x, "strings", "Index")) && len(x.Args) == 2 && isParsedParam(x.Args[0]) && mentionsScheme(x.Args[1]) {
+					good, why = false, c.pos(x.Pos())+": "+exprString(x)+" looks for the scheme in the raw text although the text is parsed in the same function: the test is case-sensitive (FILE:/x), the parsed scheme is not, so equivalent spellings of one location are treated differently"
+				}
+			case *ast.BinaryExpr:
+				if (x.Op == token.EQL || x.Op == token.NEQ) && (isParsedParam(x.X) && mentionsScheme(x.Y) || isParsedParam(x.Y) && mentionsScheme(x.X)) {
+					good, why = false, c.pos(x.Pos())+": the raw text is compared with a scheme constant"
+				}
+			}
+			return true
+		})
+		c.ob(rule, fn, fd.Pos(), good, why)
+	}
+}
+
+// ---- factory-keeps-options ----
+
+func ruleFactoryKeepsOptions(c *Ctx) {
+	const rule = "factory-keeps-options"
+	fam := c.family()
+	if !fam.ok() {
+		c.undecided(rule, "family", token.NoPos, "expander family not found by role")
+		return
+	}
+	// the factory: a plain function with an *ExpandOptions parameter that returns a loader built by a literal
+	for _, fd := range c.allFuncDecls() {
+		if fd.Body == nil || fd.Recv != nil {
+			continue
+		}
+		f, _ := c.Info.Defs[fd.Name].(*types.Func)
+		if f == nil {
+			continue
+		}
+		sig := f.Type().(*types.Signature)
+		if sig.Results().Len() != 1 || !isNamed(derefType(sig.Results().At(0).Type()), c.Types, fam.loader.Obj().Name()) {
+			continue
+		}
+		var optParam types.Object
+		for i := 0; i < sig.Params().Len(); i++ {
+			if isNamed(derefType(sig.Params().At(i).Type()), c.Types, "ExpandOptions") {
+				if _, isPtr := types.Unalias(sig.Params().At(i).Type()).(*types.Pointer); isPtr {
+					optParam = c.paramObj(fd, i)
+				}
+			}
+		}
+		if optParam == nil {
+			continue
+		}
+		fn := c.funcName(fd)
+		c.saw(fn)
+		good, why := true, ""
+		// the literal stores the parameter itself
+		stores := false
+		ast.Inspect(fd.Body, func(n ast.Node) bool {
+			lit, ok := n.(*ast.CompositeLit)
+			if !ok || !isNamed(derefType(c.typeOf(lit)), c.Types, fam.loader.Obj().Name()) {
+				return true
+			}
+			for _, el := range lit.Elts {
+				if kv, ok := el.(*ast.KeyValueExpr); ok && isNamed(derefType(c.typeOf(kv.Value)), c.Types, "ExpandOptions") {
+					if id, ok := unparen(kv.Value).(*ast.Ident); ok && c.objOf(id) == optParam {
+						stores = true
+					} else {
+						good, why = false, "the loader is built with "+exprString(kv.Value)+" instead of the options value it was handed"
+					}
+				}
+			}
+			return true
+		})
+		if !stores && good {
+			good, why = false, "the loader literal does not carry the options parameter"
+		}
+		// the parameter is re-pointed only when it is nil
+		ast.Inspect(fd.Body, func(n ast.Node) bool {
+			as, ok := n.(*ast.AssignStmt)
+			if !ok {
+				return true
+			}
+			for _, l := range as.Lhs {
+				id, ok := unparen(l).(*ast.Ident)
+				if !ok || c.objOf(id) != optParam {
+					continue
+				}
+				whenNil := false
+				for _, cl := range c.literalsAt(fd, as) {
+					if eq, isCmp := nilCmp(c, cl, optParam); isCmp && eq {
+						whenNil = true
+					}
+				}
+				if !whenNil {
+					good, why = false, c.pos(as.Pos())+": the options parameter is re-pointed to another value although it is not nil: the entry points read the base path back from the value they passed in, which no longer is the one the loader works with (the pseudo-root base of a root-less call is lost)"
+				}
+			}
+			return true
+		})
+		c.ob(rule, fn, fd.Pos(), good, why)
+	}
+}
+
+// ---- encode-nil-empty-alike ----
+
+func ruleEncodeNilEmptyAlike(c *Ctx) {
+	const rule = "encode-nil-empty-alike"
+	for _, fd := range c.allFuncDecls() {
+		if fd.Recv == nil || fd.Body == nil || fd.Name.Name != "MarshalJSON" {
+			continue
+		}
+		recv := c.recvObj(fd)
+		if recv == nil {
+			continue
+		}
+		fn := c.funcName(fd)
+		c.saw(fn)
+		good, why := true, ""
+		// a type with its own gob codec transports the nil/empty difference explicitly (the security padding,
+		// checked by gob-proxy-symmetry): it may encode the two differently
+		if rt := c.recvTypeOf(fd); rt != nil && hasMethod(derefType(rt), "GobEncode") != nil {
+			c.ob(rule, fn, fd.Pos(), true, "")
+			continue
+		}
+		ast.Inspect(fd.Body, func(n ast.Node) bool {
+			be, ok := n.(*ast.BinaryExpr)
+			if !ok || be.Op != token.EQL && be.Op != token.NEQ {
+				return true
+			}
+			for _, pr := range [][2]ast.Expr{{be.X, be.Y}, {be.Y, be.X}} {
+				if !isNilIdent(c, pr[1]) {
+					continue
+				}
+				p, ok := c.apath(pr[0])
+				if !ok || p.Root != recv {
+					continue
+				}
+				if _, isSlice := c.typeOf(pr[0]).Underlying().(*types.Slice); isSlice {
+					good = false
+					why = c.pos(be.Pos()) + ": the encoding depends on " + exprString(be) + ": a nil and an empty list are encoded differently, but a gob copy of the document has turned the empty list into a nil one (and JSON decoding of [] yields an empty, non-nil one)"
+				}
+			}
+			return true
+		})
+		c.ob(rule, fn, fd.Pos(), good, why)
+	}
 }
